@@ -437,8 +437,115 @@ def main():
         fh.write("\n".join(out) + "\n")
 
 
+def contract_lean(rel):
+    """`embedding_0 >= n_time` -> Lean proposition over `v : String → Int`"""
+    node = ast.parse(rel, mode="eval").body
+    if isinstance(node, ast.BoolOp) and isinstance(node.op, ast.Or):
+        return "(" + " ∨ ".join(contract_lean(ast.unparse(x)) for x in node.values) + ")"
+    if not (isinstance(node, ast.Compare) and len(node.ops) == 1):
+        raise Untranslatable(f"contract relation {rel!r}")
+
+    def ex(n):
+        if isinstance(n, ast.Name):
+            return f'v "{n.id}"'
+        if isinstance(n, ast.Constant) and isinstance(n.value, int):
+            return str(n.value)
+        if isinstance(n, ast.BinOp) and isinstance(n.op, (ast.Add, ast.Sub, ast.Mult)):
+            op = {ast.Add: "+", ast.Sub: "-", ast.Mult: "*"}[type(n.op)]
+            return f"({ex(n.left)} {op} {ex(n.right)})"
+        raise Untranslatable(f"contract relation {rel!r}")
+    op = {ast.GtE: "≥", ast.LtE: "≤", ast.Gt: ">", ast.Lt: "<", ast.Eq: "="}.get(type(node.ops[0]))
+    if op is None:
+        raise Untranslatable(f"contract relation {rel!r}")
+    return f"{ex(node.left)} {op} {ex(node.comparators[0])}"
+
+
+def pyx_kernels():
+    """typed-buffer kernels: Generated/StructC20Pyx.lean and Generated/StructC20.json"""
+    import json
+    sys.path.insert(0, os.path.dirname(os.path.abspath(__file__)))
+    import c20_pyx
+    try:
+        funcs = c20_pyx.analyse(SRC)
+    except c20_pyx.Untranslatable as e:
+        raise Untranslatable(str(e))
+    contracts = json.load(open(os.path.join(os.path.dirname(os.path.abspath(__file__)),
+                                            "c20_contracts.json")))
+    out = ["/- GENERATED by translate/gen_C20.py (c20_pyx.py) from the current /repo working tree — do not edit. -/",
+           "set_option linter.unusedVariables false",
+           "namespace Pyunicorn.Generated.StructC20Pyx", "",
+           "/-- one index of one subscript `arr[.., idx, ..]` of a typed buffer in a Cython kernel:",
+           "the axis, the index expression, the extent of that axis (allocation expression of a local",
+           "array, shape symbol `<arr>_<axis>` of a parameter), the ranges of the enclosing",
+           "`for v in range(..)` loops, and whether the subscript is evaluated only under a",
+           "data-dependent condition (`if`, `while`, short-circuit, after `break`/`continue`).",
+           "Variables are looked up in `v : String → Int`. -/",
+           "structure PSite where",
+           "  arr : String", "  axis : Nat", "  idx : Int", "  dim : Int", "  g : Bool", "  cond : Bool", ""]
+    table, census, cnt_rows, bcnt_rows = [], [], [], []
+    for f in funcs:
+        nm = f["lean"]
+        rows = []
+        for s in f["closed"]:
+            g = " && ".join(s["guard"]) if s["guard"] else "true"
+            rows.append(f"   -- numerics.pyx:{s['line']}  {s['text']}\n"
+                        f"   ⟨{lit(s['arr'])}, {s['axis']}, {s['idx']}, {s['dim']}, {g}, "
+                        f"{'true' if s['cond'] else 'false'}⟩")
+        out.append(f"/-! ### `{f['pkg']}/_ext/numerics.pyx:{f['line']}  {f['name']}` -/")
+        out.append(f"def {nm}_psites (v : String → Int) : List PSite :=")
+        out.append("  [\n" + ",\n".join(rows) + "]" if rows else "  []")
+        rels = contracts.get(f["key"], [])
+        out.append(f"/-- what the Python callers pass (translate/c20_contracts.json) -/")
+        out.append(f"def {nm}_contract (v : String → Int) : Prop :=")
+        out.append("  " + (" ∧ ".join(contract_lean(r) for r in rels) if rels else "True"))
+        out.append(f"/-- subscripts whose index is read from memory / drawn at random / advanced by a "
+                   f"`while` loop (left to Cython's bounds check): (array, subscript) -/")
+        out.append(f"def {nm}_checked : List (String × String) := [" +
+                   ", ".join(f"({lit(a)}, {lit(t)})" for a, t, *_ in f["checked"]) + "]")
+        out.append("")
+        table.append(f"({lit(f['key'])}, {nm}_psites, [" +
+                     ", ".join(lit(x) for x in f["loopvars"]) + "])")
+        census.append(f"({lit(f['key'])}, {len(f['closed'])}, {len(f['checked'])}, {len(f['pyobj'])})")
+        for (n, ty, bits, how) in f["counters"]:
+            cnt_rows.append(f"({lit(f['key'])}, {lit(n)}, {bits}, {lit(how)})")
+        for (n, ty, bits, how) in f["buffer_counters"]:
+            bcnt_rows.append(f"({lit(f['key'])}, {lit(n)}, {bits}, {lit(how)})")
+    for key in contracts:
+        if key != "_comment" and key not in {f["key"] for f in funcs}:
+            raise Untranslatable(f"c20_contracts.json names {key}, which is not in the source")
+    out.append("/-- dispatch table for the driver: kernel, its sites, its loop variables -/")
+    out.append("def kernel_table : List (String × ((String → Int) → List PSite) × List String) :=\n  [" +
+               ",\n   ".join(table) + "]")
+    out.append("/-- census: (kernel, index expressions proved from closed form, subscripts left to the "
+               "bounds check, subscripts handled by NumPy) -/")
+    out.append("def kernel_census : List (String × Nat × Nat × Nat) :=\n  [" + ",\n   ".join(census) + "]")
+    out.append("/-- typed integer locals that are incremented / decremented: (kernel, name, bits, how) -/")
+    out.append("def scalar_counters : List (String × String × Nat × String) :=\n  [" +
+               ",\n   ".join(cnt_rows) + "]")
+    out.append("/-- integer buffers incremented / decremented in place: (kernel, array, bits of the "
+               "element type, how) -/")
+    out.append("def buffer_counters : List (String × String × Nat × String) :=\n  [" +
+               ",\n   ".join(bcnt_rows) + "]")
+    out.append("")
+    out.append("end Pyunicorn.Generated.StructC20Pyx")
+    d = os.path.dirname(OUT)
+    with open(os.path.join(d, "StructC20Pyx.lean"), "w") as fh:
+        fh.write("\n".join(out) + "\n")
+    js = {}
+    for f in funcs:
+        js[f["key"]] = dict(
+            lean=f["lean"], line=f["line"], keyword=f["keyword"], params=f["params"], loopvars=f["loopvars"],
+            n_closed=len(f["closed"]), n_checked=len(f["checked"]), n_pyobj=len(f["pyobj"]),
+            has_while=f["has_while"], contract=contracts.get(f["key"], []),
+            shapes=sorted({s["dim"] for s in f["closed"]}),
+            uncond=sum(1 for s in f["closed"] if not s["cond"]))
+    with open(os.path.join(d, "StructC20.json"), "w") as fh:
+        json.dump(js, fh, indent=1)
+
+
 try:
     main()
+    pyx_kernels()
 except Untranslatable as e:
     print("gen_C20: cannot translate:", e, file=sys.stderr)
     sys.exit(1)
